@@ -189,7 +189,8 @@ impl BTreeQuota {
 /// positions realising a chosen combination of the win conditions at a start of turn, or one
 /// step / one capture away from them
 fn goal_board(rng: &mut Rng, to_move: Side) -> Board {
-    let density = rng.below(3);
+    // all densities, the full board included (a side can lose all rabbits with 24 pieces left)
+    let density = rng.below(4);
     let mut b = random_board(rng, density, true);
     let bside = to_move;
     let aside = to_move.other();
